@@ -42,6 +42,10 @@ type Engine struct {
 	inlineLimit   int
 	specFiles     []*SpecFile
 	funcsByKey    map[string]*ssa.Function
+	wsets         map[*ssa.Function]*wset
+	wsInProgress  map[*ssa.Function]bool
+	wsVisited     map[*ssa.Function]bool
+	wsChanged     bool
 }
 
 func (e *Engine) strLit(s string) *Term {
@@ -255,7 +259,14 @@ func (e *Engine) AddSpecFile(sf *SpecFile) error {
 	for _, c := range sf.Contracts {
 		c.FullKey = e.resolveKey(c.PkgPath, c.Key, c.Extern)
 		if old, dup := e.contracts[c.FullKey]; dup {
-			return fmt.Errorf("%s: duplicate contract for %s (also at %s)", c.Where, c.FullKey, old.Where)
+			switch {
+			case old.Extern && !c.Extern:
+				// a verified contract in the repository replaces an assumed one
+			case !old.Extern && c.Extern:
+				continue
+			default:
+				return fmt.Errorf("%s: duplicate contract for %s (also at %s)", c.Where, c.FullKey, old.Where)
+			}
 		}
 		e.contracts[c.FullKey] = c
 	}
@@ -491,6 +502,32 @@ func (ex *Exec) frameObligations(env0 *SpecEnv, entry, out *State, c *Contract) 
 				allowed[hr.name] = append(allowed[hr.name], hr.idx)
 			}
 		}
+	}
+	// heaps forgotten by summarised / unknown callees but never touched directly must be materialised too
+	sawAll := false
+	var walk func(hv *hvNode, seen map[*hvNode]bool)
+	walk = func(hv *hvNode, seen map[*hvNode]bool) {
+		for hv != nil && !seen[hv] {
+			seen[hv] = true
+			if hv.all {
+				sawAll = true
+			}
+			for n := range hv.set {
+				if _, ok := out.heap[n]; !ok {
+					if srt, ok := heapSortReg[n]; ok {
+						ex.heapGet(out, n, srt)
+					}
+				}
+			}
+			for _, e := range hv.merge {
+				walk(e.hv, seen)
+			}
+			hv = hv.prev
+		}
+	}
+	walk(out.hv, map[*hvNode]bool{})
+	if sawAll {
+		ex.oblige(out, "frame", "frame/unmodelled-call", False, ex.top.Pos())
 	}
 	names := make([]string, 0, len(out.heap))
 	for n := range out.heap {
